@@ -343,7 +343,7 @@ off64_t _GD_GetEOF(DIRFILE *restrict D, gd_entry_t *restrict E,
 
 off64_t gd_eof64(DIRFILE* D, const char *field_code)
 {
-  off64_t ns;
+  off64_t ns, wpos = -1;
   gd_entry_t *entry;
   int is_index;
 
@@ -356,7 +356,28 @@ off64_t gd_eof64(DIRFILE* D, const char *field_code)
   if (D->error)
     GD_RETURN_ERROR(D);
 
+  /* Finding the size of a RAW field which is open for writing closes it, which
+   * sends its I/O pointer back to the beginning of the field.  This is a query:
+   * remember where the pointer is ... */
+  if (entry->field_type == GD_RAW_ENTRY &&
+      (entry->e->u.raw.file[0].mode & GD_FILE_WRITE) &&
+      (entry->e->u.raw.file[0].idata >= 0 || entry->e->u.raw.file[1].idata >= 0))
+  {
+    wpos = _GD_GetIOPos(D, entry, -1);
+    if (D->error)
+      GD_RETURN_ERROR(D);
+  }
+
   ns = _GD_GetEOF(D, entry, NULL, &is_index);
+
+  /* ... and put it back (in read mode: nothing is created or padded; a
+   * subsequent write at GD_HERE starts from the read pointer) */
+  if (wpos >= 0 && !D->error && entry->e->u.raw.file[0].idata < 0 &&
+      entry->e->u.raw.file[1].idata < 0)
+  {
+    if (_GD_Seek(D, entry, wpos, GD_FILE_READ))
+      GD_RETURN_ERROR(D);
+  }
 
   if (!D->error && is_index)
     GD_SET_RETURN_ERROR(D, GD_E_BAD_FIELD_TYPE, GD_E_FIELD_BAD, NULL, 0,
